@@ -60,11 +60,29 @@ Theorem C53_model_is_reference : forall c ops,
 Proof. exact model_is_reference. Qed.
 Print Assumptions C53_model_is_reference.
 
-(* The executable property predicate the harness evaluates on the implementation holds of the model on every
-   well-shaped input. *)
-Theorem C53_prop_of_model : forall i, dec_C53 i <> None -> prop_C53 i (run_C53 i) = true.
+(* Central theorem.  wf_C53 i: the input decodes and the number of distinct keys does not exceed either dictionary
+   size (no LRU eviction possible).  On every such input the executable property predicate the harness evaluates on
+   the implementation (equality with the reference automaton) holds of the model; there is no known-finding class. *)
+Theorem C53_prop_of_model : forall i, wf_C53 i = true -> kf_C53 i = 0 -> prop_C53 i (run_C53 i) = true.
 Proof. exact prop_C53_of_model. Qed.
 Print Assumptions C53_prop_of_model.
+
+(* a corpus case (corpus/C53/boundaries.case, jail) is well-formed *)
+Example C53_wf_example :
+  let i := VL [VZ 5; VZ 4; VZ 2; VZ 100; VZ 100;
+               VL [VL [VZ 1; VZ 0]; VL [VZ 2; VZ 0]; VL [VZ 1; VZ 2]; VL [VZ 1; VZ 4]; VL [VZ 2; VZ 4]; VL [VZ 1; VZ 8];
+                   VL [VZ 1; VZ 10]; VL [VZ 1; VZ 12]]] in
+  wf_C53 i = true /\ run_C53 i = VL [VZ 0; VZ 0; VZ 0; VZ 1; VZ 0; VZ 1; VZ 0; VZ 0].
+Proof. exact C53_wf_example_lemma. Qed.
+
+(* LRU eviction is part of the model (run_lru): with a single access slot two alternating keys keep evicting each
+   other's counter and are never jailed, whereas unbounded dictionaries jail both (threshold 1). *)
+Example C53_eviction_example :
+  run_lru {| c_period := 5; c_stay := 4; c_threshold := 1 |} {| l_acc := []; l_pr := []; l_acap := 1; l_pcap := 100 |}
+          [(0, 0); (1, 0); (0, 0); (1, 0); (0, 0); (1, 0)] = [false; false; false; false; false; false]
+  /\ run_ops {| c_period := 5; c_stay := 4; c_threshold := 1 |} empty_state
+          [(0, 0); (1, 0); (0, 0); (1, 0); (0, 0); (1, 0)] = [false; false; true; true; true; true].
+Proof. exact C53_evict_example_lemma. Qed.
 
 (* Non-vacuity: period 5, stay 4, threshold 2; key 1 is jailed at its third request (t=3) until 0+5+4 = 9,
    still denied at t=8, released at t=9; key 2 is never affected. *)
